@@ -301,7 +301,10 @@ pub(crate) mod kit {
     pub(crate) fn uni_resumed_async_send_wakes<C, const N: usize, const M: usize>()
     where C: UniModel<N, M> + ChannelProducer<'static, u32, C::Derived> + ChannelConsumer<'static, C::Derived> + ChannelCommon<u32, C::Derived> {
         let s = sm::SmState::<M>::first_streams_parked(M as u32);
-        let len: u32 = kani::any(); kani::assume(len < N as u32);
+        // the pooled (zero-copy) channels are too heavy for a symbolic fill level here (CBMC ran out of memory): they start with exactly
+        // min(MAX_STREAMS, BUFFER_SIZE-1) events pending -- the case in which a length sampled before the suspension says 'nobody to wake'
+        let len: u32 = if C::SYMBOLIC_MANAGER { kani::any() } else if M < N { M as u32 } else { N as u32 - 1 };
+        kani::assume(len < N as u32);
         let arc = C::build(sm::manager_in_state(&s), kani::any(), kani::any(), len, kani::any());
         let ch = leak_static(&arc);
         let x: u32 = kani::any();
